@@ -22,6 +22,8 @@ T = {
  'C10_a': dict(prop='C10', breaks='Fs::readMemoryOomGroupAt compares (*lines)[0] instead of the whole vector: an empty memory.oom.group indexes an empty vector', needs='an empty (zero byte) memory.oom.group', note='the sub-agent was pointed at the Fs.cpp leaf readers, the part of C10 that is claimed'),
  'C15_a': dict(prop='C15', breaks='readMinMaxLowHighFromLines clamps every value with more than digits10 (18) characters to INT64_MAX', needs='memory.min/low/high/max or swap.max holding a 19-digit value below INT64_MAX', note='the sub-agent was pointed at the Fs.cpp leaf readers, the part of C15 that is claimed'),
  'C19_a': dict(prop='C19', breaks='processMsg sends an early reply for an empty request and then falls through to the normal reply: two JSON documents on one connection', needs='a request whose first byte is a terminator, or a client that half-closes before sending', note='the sub-agent was pointed at the per-connection protocol handling, the part of C19 that is claimed'),
+ 'C08_b': dict(prop='C08', breaks='memory_reclaim updates its remembered pgscan sum only when the sum grew: after a watched cgroup disappears the stale high-water mark hides later growth', needs='several matching cgroups, one disappears, the survivors then grow by less than the vanished one had contributed'),
+ 'C13_b': dict(prop='C13', breaks='Engine::addDropInConfig tries every ruleset and rolls back once at the end, but no longer returns before installing the prekill hooks: a refused unit leaves its hooks behind', needs='a unit that the engine itself refuses (unknown target reaching the engine, i.e. compiled against a different root) and that carries a prekill hook'),
  'C11_a': dict(prop='C11', breaks='cgroups filtered out by xattr_filter are remembered and not re-probed while they keep existing: a cgroup tagged later is never evaluated',
                needs='ruleset cgroup with xattr_filter; a cgroup untagged at one tick and tagged at a later one without disappearing in between', note='patch rebased onto the later fix: commits (same change)'),
  'C12_a': dict(prop='C12', breaks='parseSize overflow guard compares <= double(INT64_MAX) (== 2^63): a total of exactly 2^63 is accepted and wraps to INT64_MIN',
